@@ -952,8 +952,6 @@ func (l *liveServer) staleTargets(p *model.Proxy) bool {
 	return !slices.Equal(key(p.ServiceTargets), key(l.s.Env().ServiceDiscovery.GetProxyServiceTargets(p)))
 }
 
-const findingCacheView = "C01-eds-cache-key-ignores-scoped-service-ports"
-
 // classify attributes a failing case to a listed finding by its SPECIFIC condition, or returns "".
 //
 //	badNames: every resource name involved in a failing bit; ctxBad: partial PushContext != from-scratch one (never attributable)
@@ -961,34 +959,14 @@ func (l *liveServer) classify(cl *simClient, p *model.Proxy, pcLive *model.PushC
 	if ctxBad {
 		return ""
 	}
-	// (1) EDS cache poisoning: the cache serves an EMPTY ClusterLoadAssignment where cache-less generation has endpoints, and
-	// nothing else is wrong: every failing name is one of those clusters.
-	poisoned := map[string]bool{}
-	cacheClean := true
+	// Any disagreement between the XDS cache and cache-less generation is never attributable (the former finding
+	// C01-eds-cache-key-ignores-scoped-service-ports is repaired in /repo a15781a: recurrence = VIOLATION).
 	for x := 0; x < nX; x++ {
-		for _, n := range diffNames(dCache[x], dLive[x]) {
-			cacheClean = false
-			if x != xEDS {
-				return ""
-			}
-			cla := &endpoint.ClusterLoadAssignment{}
-			if proto.Unmarshal(dCache[x][n], cla) != nil || len(cla.Endpoints) != 0 || dLive[x][n] == nil {
-				return ""
-			}
-			poisoned[n] = true
+		if len(diffNames(dCache[x], dLive[x])) > 0 {
+			return ""
 		}
 	}
-	if !cacheClean {
-		for x := 0; x < nX; x++ {
-			for _, n := range badNames[x] {
-				if x != xEDS || !poisoned[n] {
-					return ""
-				}
-			}
-		}
-		return findingCacheView
-	}
-	// (2) stale registry-derived identity: the connected proxy's workload labels / locality / service targets are not what a
+	// stale registry-derived identity: the connected proxy's workload labels / locality / service targets are not what a
 	// new connection gets, and the client holds EXACTLY what the real generators produce for that stale identity.
 	if l.identityDrift(cl.spec, p) == "" {
 		return ""
@@ -1716,7 +1694,8 @@ func genH(t *testing.T, c *vlib.Collector, id *int) {
 	// the scripted reproducer of known finding C01-stale-service-targets-on-endpoint-only-change (its cases are tagged by the
 	// same narrow condition as in random sessions, not wholesale)
 	sessions = append(sessions, sessionCfg{Mode: "h", Steps: len(staleTargetsScript), Specs: nodeSpecs, World: staleTargetsWorld, Script: staleTargetsScript})
-	// the scripted reproducer of known finding C01-eds-cache-key-ignores-scoped-service-ports (tagged by classify as well)
+	// the scripted reproducer of the former finding C01-eds-cache-key-ignores-scoped-service-ports (repaired in /repo a15781a):
+	// an ordinary session now, it must simply pass including the cache-coherence bit
 	sessions = append(sessions, sessionCfg{Mode: "h", Steps: len(cacheViewScript), Specs: nodeSpecs, World: cacheViewWorld, Script: cacheViewScript})
 	defaultBodySize := istio_route.DefaultMaxDirectResponseBodySizeBytes.GetValue()
 	defer func() {
